@@ -19,6 +19,7 @@ def stub_create_atom(self, atomname, newcoords):
     a.x = newcoords[0]
     a.y = newcoords[1]
     a.z = newcoords[2]
+    a.reference = self.reference.map[atomname]
     self.atoms.append(a)
     self.map[atomname] = a
 
@@ -28,8 +29,10 @@ def DA(name, bonds):
                                           bonds=Items(*[Const(b) for b in bonds])))
 
 
-def AT(nm, name):
-    return Named(nm, Obj("pdb2pqr.structures:Atom", name=Const(name), x=Real, y=Real, z=Real, bonds=Items()))
+def AT(nm, name, ref="own"):
+    # every atom of a residue points at its own entry of the residue's template (Amino.add_atom sets it)
+    refd = Const(None) if name == "??" else (Ref("d_" + name.lower()) if ref == "own" else ref)
+    return Named(nm, Obj("pdb2pqr.structures:Atom", name=Const(name), x=Real, y=Real, z=Real, bonds=Items(), reference=refd))
 
 
 def same_xyz(a, b):
@@ -115,6 +118,51 @@ contract(
     trace={"pdb2pqr.quatfit:find_coordinates": V3},
     name="repair_heavy.far_end_first", native=False,
 )
+
+
+# a backbone oxygen missing INSIDE a chain: the third point is the next residue's N, which the template knows as the
+# pseudo-atom "N+1" of THIS residue (PEPTIDE patch) - its template position is this residue's "N+1" entry, not the entry
+# "N" of the next residue's own template (which that atom points at)
+contract(
+    "pdb2pqr.biomolecule:Biomolecule.repair_heavy", ["C03", "C04", "C05"],
+    params={"self": Obj("pdb2pqr.biomolecule:Biomolecule", num_missing_heavy=Const(1), residues=Items(Named("res", Obj(
+        "pdb2pqr.aa:GLY", name=Const("GLY"), peptide_c=Const(None),
+        peptide_n=AT("next_n", "N", Named("d_next_n", Obj("pdb2pqr.definitions:DefinitionAtom", name=Const("N"), x=Real, y=Real,
+                                                         z=Real, bonds=Items(Const("CA"))))),
+        missing=Items(Const("O")),
+        atoms=Items(Ref("n"), Ref("ca"), Ref("c")),
+        map=DictOf(("N", AT("n", "N")), ("CA", AT("ca", "CA")), ("C", AT("c", "C"))),
+        pool=Items(AT("new1", "??")),
+        reference=Obj("pdb2pqr.definitions:DefinitionResidue", name=Const("GLY"), map=DictOf(
+            ("N", DA("N", ["CA"])), ("CA", DA("CA", ["N", "C"])), ("C", DA("C", ["CA", "O", "N+1"])),
+            ("O", DA("O", ["C"])), ("N+1", DA("N+1", ["C"]))))))))},
+    requires=[],
+    ensures=[
+        "'O' in res.map and len(res.atoms) == 4 and len(res.missing) == 0",
+        "same_xyz(n, old(n)) and same_xyz(ca, old(ca)) and same_xyz(c, old(c)) and same_xyz(next_n, old(next_n))",
+        "len(calls_of('find_coordinates')) == 1 and at(calls_of('find_coordinates')[0].ret, res.map['O'])",
+        "at(calls_of('find_coordinates')[0].args['defatomcoords'], res.reference.map['O'])",
+        # the three points: C, CA and the next residue's N - each against THIS residue's template entry of that role
+        "call_ok_o(calls_of('find_coordinates')[0], res, c, ca, n, next_n)",
+    ],
+    raises={"ValueError": "False"},
+    stubs={"pdb2pqr.aa:Amino.create_atom": "stub_create_atom"},
+    trace={"pdb2pqr.quatfit:find_coordinates": V3},
+    name="repair_heavy.backbone_o.internal", native=False,
+)
+
+
+def call_ok_o(call, res, c, ca, n, next_n):
+    """Three points, each a present atom paired with THIS residue's template entry of its role (any order)."""
+    ok = call.args['numpoints'] == 3 and len(call.args['refcoords']) == 3 and len(call.args['defcoords']) == 3
+    k = 0
+    for sc in call.args['refcoords']:
+        dc = call.args['defcoords'][k]
+        hit = (at(sc, c) and at(dc, res.reference.map['C'])) or (at(sc, ca) and at(dc, res.reference.map['CA']))
+        hit = hit or (at(sc, n) and at(dc, res.reference.map['N'])) or (at(sc, next_n) and at(dc, res.reference.map['N+1']))
+        ok = ok and hit
+        k = k + 1
+    return ok
 
 
 def call_ok3(c, res, target):
